@@ -27,13 +27,19 @@ const daemonName = "c20-daemon"
 // entered through daemon.Run() in init(); the "caller" role (a short-lived process that calls Launch
 // and exits) is entered from TestMain.
 func init() {
-	daemon.Register(daemonName, daemonMain)
+	for _, n := range daemonNames {
+		n := n
+		daemon.Register(n, func() { daemonMain(n) })
+	}
 	if daemon.Run() {
 		os.Exit(0)
 	}
 }
 
-func daemonMain() {
+// several handlers under several names: Launch(name) must start the handler registered under that very name
+var daemonNames = []string{daemonName, daemonName + "-b", daemonName + "-c", daemonName + "-d"}
+
+func daemonMain(self string) {
 	if os.Getenv("C20_CRASH") != "" {
 		os.Exit(3) // a daemon that dies before it ever calls Done()
 	}
@@ -44,7 +50,7 @@ func daemonMain() {
 	marker := filepath.Join(dir, fmt.Sprintf("marker.%d", os.Getpid()))
 	// everything the daemon does before Done(): write the marker (atomically)
 	tmp := marker + ".tmp"
-	os.WriteFile(tmp, []byte(fmt.Sprintf("%d %s", os.Getpid(), os.Getenv("C20_TOKEN"))), 0o644)
+	os.WriteFile(tmp, []byte(fmt.Sprintf("%d %s %s", os.Getpid(), os.Getenv("C20_TOKEN"), self)), 0o644)
 	os.Rename(tmp, marker)
 	daemon.Done()
 	// life after Done(): the launcher is going away now; an ordinary daemon logs something and carries on
@@ -67,7 +73,11 @@ func TestMain(m *testing.M) {
 			}
 			os.Unsetenv("C20_CRASH")
 		}
-		pid, err := daemon.Launch(daemonName)
+		name := daemonName
+		if n := os.Getenv("C20_NAME"); n != "" {
+			name = n
+		}
+		pid, err := daemon.Launch(name)
 		if err != nil {
 			fmt.Printf("ERR %v\n", err)
 		} else {
@@ -90,6 +100,14 @@ type kase struct {
 	concurrent       int
 	childCaller      bool
 	afterFailed      bool // the same caller process first launches a daemon that dies before Done()
+	distinctNames    bool // concurrent launches ask for handlers registered under different names
+}
+
+func (k kase) name(i int) string {
+	if k.distinctNames {
+		return daemonNames[i%len(daemonNames)]
+	}
+	return daemonName
 }
 
 func (k kase) String() string {
@@ -100,6 +118,9 @@ func (k kase) String() string {
 	s := fmt.Sprintf("daemonDelay=%dms launcherPause=%dms concurrentLaunches=%d caller=%s", k.delayMs, k.pauseMs, k.concurrent, c)
 	if k.afterFailed {
 		s += " afterFailedLaunch"
+	}
+	if k.distinctNames {
+		s += " distinctHandlerNames"
 	}
 	return s
 }
@@ -180,7 +201,7 @@ func runCase(k kase) string {
 				for kk, v := range env {
 					cmd.Env = append(cmd.Env, kk+"="+v)
 				}
-				cmd.Env = append(cmd.Env, "C20_ROLE=caller")
+				cmd.Env = append(cmd.Env, "C20_ROLE=caller", "C20_NAME="+k.name(i))
 				if k.afterFailed {
 					cmd.Env = append(cmd.Env, "C20_FAIL_FIRST=1")
 				}
@@ -229,7 +250,7 @@ func runCase(k kase) string {
 			wg.Add(1)
 			go func(i int) {
 				defer wg.Done()
-				pid, err := daemon.Launch(daemonName)
+				pid, err := daemon.Launch(k.name(i))
 				results[i].returned = time.Now()
 				results[i].callerPid = os.Getpid()
 				if err != nil {
@@ -266,8 +287,8 @@ func runCase(k kase) string {
 			others, _ := filepath.Glob(filepath.Join(dir, "marker.*"))
 			return fmt.Sprintf("launch #%d returned pid %d, but no marker written by that process before Done() exists (markers present: %v)", i, r.pid, others)
 		}
-		if want := fmt.Sprintf("%d %s", r.pid, token); string(mb) != want {
-			return fmt.Sprintf("launch #%d: marker of pid %d holds %q, want %q", i, r.pid, mb, want)
+		if want := fmt.Sprintf("%d %s %s", r.pid, token, k.name(i)); string(mb) != want {
+			return fmt.Sprintf("launch #%d of handler %q: marker of pid %d holds %q, want %q (pid, token, name of the handler that ran)", i, k.name(i), r.pid, mb, want)
 		}
 		st, err := procStat(r.pid)
 		if err != nil || st.state == "Z" || st.state == "X" {
@@ -416,7 +437,27 @@ func TestGrid(t *testing.T) {
 			}
 		}
 	}
-	ev.Exhaustive(fmt.Sprintf("the grid daemon delay x launcher pause over %v ms x {caller = test process, short-lived child}", grid))
+	// several Launch calls at once in one caller process, each for a handler registered under another name
+	for _, c := range []int{2, 4, 8} {
+		for _, d := range []int{0, 20} {
+			idx++
+			if idx%sn != si {
+				continue
+			}
+			k := kase{delayMs: d, pauseMs: 0, concurrent: c, distinctNames: true}
+			if msg := runCase(k); msg != "" {
+				if strings.HasPrefix(msg, "harness:") {
+					rt.Inconclusivef(t, "%s: %s", k, msg)
+				}
+				t.Errorf("%s: %s", k, msg)
+				return
+			}
+			n++
+			ev.Label("concurrent_launches_of_different_handlers")
+			ev.Case(true, ev.Hash(k.String()), k.String)
+		}
+	}
+	ev.Exhaustive(fmt.Sprintf("the grid daemon delay x launcher pause over %v ms x {caller = test process, short-lived child}, plus 2/4/8 concurrent launches of different handlers from the test process", grid))
 	ev.LabelN("grid_cases", int64(n))
 }
 
@@ -429,6 +470,7 @@ func TestGenerated(t *testing.T) {
 			childCaller: rapid.Bool().Draw(t, "childCaller"),
 			afterFailed: rapid.IntRange(0, 3).Draw(t, "afterFailedLaunch") == 0,
 		}
+		k.distinctNames = k.concurrent >= 2 && rapid.IntRange(0, 2).Draw(t, "distinctNames") > 0
 		msg := runCase(k)
 		if strings.HasPrefix(msg, "harness:") {
 			ev.Inconclusive(1)
@@ -442,6 +484,9 @@ func TestGenerated(t *testing.T) {
 		}
 		if k.concurrent >= 2 {
 			ev.Label("concurrent_launches")
+		}
+		if k.distinctNames {
+			ev.Label("concurrent_launches_of_different_handlers")
 		}
 		ev.Case(k.nontrivial(), ev.Hash(k.String()), k.String)
 	})
